@@ -989,7 +989,7 @@ class Session:
                 elif self.pairing_method == PairingMethod.PASSKEY:
                     # We need a passkey
                     await self.passkey_ready.wait()
-                    assert self.passkey
+                    assert self.passkey is not None
 
                     z = 0x80 + ((self.passkey >> self.passkey_step) & 1)
                 else:
